@@ -1339,6 +1339,27 @@ func run(sc vh.Scenario, dir string, rec *vh.Rec) {
 			}
 		}
 		ev["res"], ev["out"], ev["fired"], ev["fault"] = res, out, fired, fault
+		if fired && !crashed && w != nil && w.mgr != nil {
+			// the operation reported an error and the process goes on: the running instance must still behave as
+			// before towards passphrases too.  Which candidates unlock it now?  (It is put back as it was.)
+			was := w.mgr.IsLocked()
+			unl := []string{}
+			for _, p := range allPass {
+				w.mgr.Lock()
+				if w.mgr.Unlock(d.pass[p]) == nil {
+					unl = append(unl, p)
+				}
+			}
+			w.mgr.Lock()
+			if !was {
+				for _, p := range unl {
+					if w.mgr.Unlock(d.pass[p]) == nil {
+						break
+					}
+				}
+			}
+			ev["runl"] = map[string]interface{}{w.name: unl}
+		}
 		observer := st.A() == "Sign" || st.A() == "Ordinal"
 		// projections of every wallet
 		runP, reoP, secP, sigP := map[string]interface{}{}, map[string]interface{}{}, map[string]interface{}{}, map[string]interface{}{}
